@@ -1241,19 +1241,83 @@ class ModelsOps:
             return BoolV(t.normalized)
         I.unsupported(node, f"Term.{attr}")
 
+    def ref_product(self, t: TermV):
+        """Product of the reference units a normal form over `t`'s dimensions consists of - when every type
+        involved is a base type known to have a reference unit; otherwise None."""
+        st = self.st
+        P = RF.const(1)
+        for k, e in self.norm_dims(t.dims).items():
+            if e == (0, 0):
+                continue
+            if k not in st.tparent or st.T(k).has_ref is not True or st.dims_of_type(k) != {st.tfind(k): (1, 0)}:
+                return None
+            P = P * self.rho(k).pow_sym(e)
+        return P
+
     def term_num_elem(self, t: TermV, node):
         """Numeric factor of a term: only meaningful as a scale when the term is normalised."""
         self.st.effects.append(("num_elem", t.normalized, self.where(node)))
         tag = getattr(t, "num_choice", None)
         if tag is None:
+            P = self.ref_product(t) if t.normalized else None
+            if P is not None:
+                # normal form over reference units: the numeric factor is the term's value over their product
+                val = self.st.norm(t.mag / P)
+                if val.is_const():
+                    t.num_choice = 0 if val.const_value() == 1 else 1
+                    t.nu = val
+                    return NONE if t.num_choice == 0 else Num(t.nu, "anyrat")
             c = self.I.choose(2, f"num_elem@{getattr(node, 'lineno', '?')}", ["none", "numeric"])
             t.num_choice = c
-            if c == 1:
+            if P is not None:
+                if c == 0:
+                    self.st.equate(t.mag, P)        # no numeric element: the value is the product itself
+                else:
+                    t.nu = self.st.norm(t.mag / P)
+            elif c == 1:
                 t.nu = RF.atom(("nu", self.st.fresh("nu")))
         if t.num_choice == 0:
             return NONE
         # the numeric element of a term keeps the type it was given with (a plain int stays an int)
-        return Num(t.nu, "anyrat")
+        return Num(self.st.norm(t.nu), "anyrat")
+
+    def term_materialize(self, t: TermV, n: int, node):
+        """Item view [(element, exponent)] of an abstract, non-normalised unit term that is taken apart: an optional
+        numeric item (with an exponent of its own), then one unit per dimension; the last unit's magnitude is
+        whatever makes the items denote the term's value."""
+        st = self.st
+        m = getattr(t, "mat", None)
+        if m is not None:
+            if len(m) != n:
+                self.I.raise_("ValueError", node)
+            return m
+        dims = [(k, e) for k, e in self.norm_dims(t.dims).items() if e != (0, 0)]
+        if any(e[1] != 0 or k not in st.tparent for k, e in dims):
+            self.I.unsupported(node, f"unpack of {t!r}")
+        extra = n - len(dims)
+        if extra not in (0, 1) or not dims:
+            self.I.unsupported(node, f"unpack of {t!r} into {n} items")
+        items = []
+        rest = st.norm(t.mag)
+        if extra == 1:
+            k = RF.atom(("k", st.fresh("defnum")))
+            c = self.I.choose(2, f"numeric-item-exponent@{getattr(node, 'lineno', '?')}", ["1", "n"])
+            e = Num(RF.const(1), "int") if c == 0 else Num(RF.atom(N_ATOM), "int")
+            items.append((Num(k, "anyrat"), e))
+            rest = rest / (k if c == 0 else k.pow_sym((0, 1)))
+        for i, (tid, e) in enumerate(dims):
+            last = i == len(dims) - 1
+            if last:
+                if e[0] not in (1, -1):
+                    self.I.unsupported(node, f"unpack of {t!r}")
+                mu = rest if e[0] == 1 else rest.inv()
+                u = UnitV(st.new_unit(tid, mu=mu))
+            else:
+                u = UnitV(st.new_unit(tid))
+                rest = rest / self.mu(u).pow_int(e[0])
+            items.append((u, Num(RF.const(e[0]), "int")))
+        t.mat = items
+        return items
 
     def term_split(self, t: TermV, args, node):
         I = self.I
